@@ -1,2 +1,687 @@
-//! Harnesses for property C42 (see /verif/properties.jsonl).
-use crate::stubs;
+//! C42 The multi-clock estimator keeps unrelated estimates intact.
+//!
+//! Concrete instantiation: `EstimatorState<NoAllocKalmanStorage<_, 81>>` /
+//! `KalmanController<NoAllocKalmanStorage<_, 16>, _>` (fixed arrays + `ArrayVec`; the estimator,
+//! matrix and filter code is generic and identical for the heap storage, but `Vec` growth through
+//! `realloc` makes every list loop unbounded for the symbolic executor - measured, see report).
+//!
+//! The reference model is a table "which logical element (clock i offset / clock i frequency /
+//! link j delay) exists", kept by the harness from the documented success/failure rules of each
+//! operation. The estimator's own entries are overwritten with fresh symbolic bit patterns through
+//! a hook before the operation under test, and read back through the row the *queries* would use
+//! (`get_clock_info(..).offset_index()` etc.), so a wrong index shift shows up as a changed value.
+use statime_algo::verif::controller as ch;
+use statime_algo::verif::estimator as eh;
+use statime_algo::verif::filter as fh;
+use statime_algo::{AlgoError, KalmanController, NoAllocKalmanStorage};
+use statime_base::verif::identifiers as ih;
+use statime_base::verif::time_types as th;
+use statime_base::{Clock, ClockError, ClockId, Duration, LeapStatus, LinkId, TAI, Timestamp};
+
+// up to 5 rows (2 clocks + 1 link) -> 25 covariance entries
+type S = NoAllocKalmanStorage<(), 25>;
+type Est = eh::EstimatorStateT<S>;
+
+const NC: usize = 2; // clock ids
+const NL: usize = 1; // link id: (0,1)
+const SLOTS: usize = 2 * NC + NL;
+
+fn cid(i: usize) -> ClockId {
+    ih::clock_id_from_raw(10 + i)
+}
+fn link_ends(_j: usize) -> (usize, usize) {
+    (0, 1)
+}
+fn lid(j: usize) -> LinkId {
+    let (a, b) = link_ends(j);
+    ih::link_id_from_raw(cid(a), cid(b), 100 + j)
+}
+
+#[derive(Clone, Copy, PartialEq)]
+enum ClockKind {
+    Absent,
+    Internal,
+    External,
+}
+
+/// Reference model: what exists.
+#[derive(Clone, Copy)]
+struct Model {
+    clocks: [ClockKind; NC],
+    links: [bool; NL],
+}
+
+impl Model {
+    fn rows(&self) -> usize {
+        let mut n = 0;
+        let mut i = 0;
+        while i < NC {
+            if self.clocks[i] == ClockKind::Internal {
+                n += 2;
+            }
+            i += 1;
+        }
+        let mut j = 0;
+        while j < NL {
+            if self.links[j] {
+                n += 1;
+            }
+            j += 1;
+        }
+        n
+    }
+    /// logical slot -> exists
+    fn slot_present(&self, s: usize) -> bool {
+        if s < 2 * NC { self.clocks[s / 2] == ClockKind::Internal } else { self.links[s - 2 * NC] }
+    }
+}
+
+#[derive(Clone, Copy)]
+struct Op {
+    kind: u8,  // 0 add_clock 1 remove_clock 2 add_external 3 remove_external 4 add_link 5 remove_link
+    which: u8, // clock / link number
+    v0: f64,
+    v1: f64,
+    u0: f64,
+    u1: f64,
+}
+
+/// Documented outcome of `op` in model state `m` (Ok => new model).
+fn model_apply(m: &Model, op: &Op) -> Option<Model> {
+    let w = op.which as usize;
+    let mut n = *m;
+    match op.kind {
+        0 => {
+            if m.clocks[w] != ClockKind::Absent {
+                return None; // duplicate id (internal or external)
+            }
+            n.clocks[w] = ClockKind::Internal;
+        }
+        1 => {
+            if m.clocks[w] != ClockKind::Internal {
+                return None; // unknown internal clock
+            }
+            n.clocks[w] = ClockKind::Absent;
+        }
+        2 => {
+            if m.clocks[w] != ClockKind::Absent {
+                return None;
+            }
+            n.clocks[w] = ClockKind::External;
+        }
+        3 => {
+            if m.clocks[w] != ClockKind::External {
+                return None;
+            }
+            n.clocks[w] = ClockKind::Absent;
+        }
+        4 => {
+            let (a, b) = link_ends(w);
+            if m.clocks[a] == ClockKind::Absent || m.clocks[b] == ClockKind::Absent || m.links[w] {
+                return None; // unknown end point or duplicate link
+            }
+            n.links[w] = true;
+        }
+        _ => {
+            if !m.links[w] {
+                return None;
+            }
+            n.links[w] = false;
+        }
+    }
+    Some(n)
+}
+
+fn est_apply(e: Est, op: &Op) -> Result<Est, AlgoError> {
+    let w = op.which as usize;
+    match op.kind {
+        0 => e.add_clock(
+            cid(w),
+            eh::UncertainValueT { value: op.v0, uncertainty: op.u0 },
+            eh::UncertainValueT { value: op.v1, uncertainty: op.u1 },
+            1e-8,
+        ),
+        1 => e.remove_clock(cid(w)),
+        2 => e.add_external_clock(cid(w)),
+        3 => e.remove_external_clock(cid(w)),
+        4 => e.add_link(lid(w), eh::UncertainValueT { value: op.v0, uncertainty: op.u0 }, 0.5),
+        _ => e.remove_link(lid(w)),
+    }
+}
+
+/// Row the estimator's queries use for logical slot `s`.
+fn slot_row(e: &Est, s: usize) -> Option<usize> {
+    if s < 2 * NC {
+        if s % 2 == 0 { eh::est_clock_row(e, cid(s / 2)) } else { eh::est_clock_freq_row(e, cid(s / 2)) }
+    } else {
+        eh::est_link_row(e, lid(s - 2 * NC))
+    }
+}
+
+/// Structural agreement of the estimator with the model: dimensions, every existing element has a
+/// row inside the matrices, rows pairwise distinct (so they are a bijection onto 0..rows).
+fn check_layout(e: &Est, m: &Model) {
+    let rows = m.rows();
+    assert!(eh::est_state_dims(e) == (rows, 1), "state vector has one row per clock entry and link");
+    assert!(eh::est_cov_dims(e) == (rows, rows), "covariance is square of the same dimension");
+    let mut rws = [usize::MAX; SLOTS];
+    let mut s = 0;
+    while s < SLOTS {
+        let r = slot_row(e, s);
+        assert!(r.is_some() == m.slot_present(s), "element known to the estimator iff it exists in the model");
+        if let Some(r) = r {
+            assert!(r < rows, "element row inside the state vector");
+            rws[s] = r;
+        }
+        s += 1;
+    }
+    let mut a = 0;
+    while a < SLOTS {
+        let mut b = a + 1;
+        while b < SLOTS {
+            assert!(rws[a] == usize::MAX || rws[a] != rws[b], "no two elements share a row");
+            b += 1;
+        }
+        a += 1;
+    }
+    let mut i = 0;
+    while i < NC {
+        assert!(e.is_internal_clock(cid(i)) == (m.clocks[i] == ClockKind::Internal), "is_internal_clock agrees with the model");
+        assert!(e.is_external_clock(cid(i)) == (m.clocks[i] == ClockKind::External), "is_external_clock agrees with the model");
+        if m.clocks[i] == ClockKind::Internal {
+            assert!(rws[2 * i + 1] == rws[2 * i] + 1, "frequency entry follows the offset entry");
+        }
+        i += 1;
+    }
+}
+
+/// Symbolic payload shared by all paths of one harness.
+struct Payload {
+    sv: [f64; SLOTS],
+    cv: [[f64; SLOTS]; SLOTS],
+    v0: f64,
+    v1: f64,
+}
+
+fn any_payload() -> Payload {
+    Payload { sv: kani::any(), cv: kani::any(), v0: kani::any(), v1: kani::any() }
+}
+
+/// One operation on one pre-state. `e0`/`m` have a concrete shape (sizes, index layout) on every
+/// path; the estimator entries are overwritten with the symbolic payload first.
+fn check_op(e0: &Est, m: &Model, kind: u8, which: u8, p: &Payload, tally: &mut Tally) {
+    let last = Op { kind, which, v0: p.v0, v1: p.v1, u0: 3.0, u1: 4.0 };
+    let rows = m.rows();
+    let mut e = e0.clone();
+    let mut r = 0;
+    while r < rows {
+        eh::est_state_set(&mut e, r, p.sv[r]);
+        let mut c = 0;
+        while c < rows {
+            eh::est_cov_set(&mut e, r, c, p.cv[r][c]);
+            c += 1;
+        }
+        r += 1;
+    }
+    let mut before = [usize::MAX; SLOTS];
+    let mut s = 0;
+    while s < SLOTS {
+        if let Some(r) = slot_row(&e, s) {
+            before[s] = r;
+        }
+        s += 1;
+    }
+
+    // ---- operation under test
+    let res = est_apply(e.clone(), &last);
+    let mm = model_apply(m, &last);
+    assert!(res.is_ok() == mm.is_some(), "operation succeeds exactly when the identifier rules allow it");
+    let (Ok(after), Some(nm)) = (res, mm) else {
+        tally.rejected += 1;
+        return;
+    };
+    check_layout(&after, &nm);
+    let mut arow = [usize::MAX; SLOTS];
+    let mut s = 0;
+    while s < SLOTS {
+        if let Some(r) = slot_row(&after, s) {
+            arow[s] = r;
+        }
+        s += 1;
+    }
+
+    // every element that existed before and still exists keeps value and (co)variances, bit for bit
+    let mut a = 0;
+    while a < SLOTS {
+        if m.slot_present(a) && nm.slot_present(a) {
+            let ra = arow[a];
+            assert!(
+                eh::est_state_get(&after, ra).to_bits() == p.sv[before[a]].to_bits(),
+                "value of an unrelated element is unchanged"
+            );
+            let mut b = 0;
+            while b < SLOTS {
+                if m.slot_present(b) && nm.slot_present(b) {
+                    let rb = arow[b];
+                    assert!(
+                        eh::est_cov_get(&after, ra, rb).to_bits() == p.cv[before[a]][before[b]].to_bits(),
+                        "(co)variance between unrelated elements is unchanged"
+                    );
+                }
+                b += 1;
+            }
+        }
+        a += 1;
+    }
+    // a newly added element gets the supplied estimate and no correlation with the others
+    // (its variance is uncertainty.powi(2): CBMC has no exact model of powi, so it is not asserted)
+    let w = which as usize;
+    if kind == 0 {
+        let ro = arow[2 * w];
+        let rf = arow[2 * w + 1];
+        assert!(eh::est_state_get(&after, ro).to_bits() == last.v0.to_bits(), "new clock: offset value");
+        assert!(eh::est_state_get(&after, rf).to_bits() == last.v1.to_bits(), "new clock: frequency value");
+        assert!(eh::est_cov_get(&after, ro, rf) == 0.0 && eh::est_cov_get(&after, rf, ro) == 0.0, "new clock: offset/frequency uncorrelated");
+        let mut b = 0;
+        while b < SLOTS {
+            if m.slot_present(b) {
+                let rb = arow[b];
+                assert!(
+                    eh::est_cov_get(&after, ro, rb) == 0.0
+                        && eh::est_cov_get(&after, rb, ro) == 0.0
+                        && eh::est_cov_get(&after, rf, rb) == 0.0
+                        && eh::est_cov_get(&after, rb, rf) == 0.0,
+                    "new clock uncorrelated with existing elements"
+                );
+            }
+            b += 1;
+        }
+    }
+    if kind == 4 {
+        let rl = arow[2 * NC + w];
+        assert!(eh::est_state_get(&after, rl).to_bits() == last.v0.to_bits(), "new link: delay value");
+        let mut b = 0;
+        while b < SLOTS {
+            if m.slot_present(b) {
+                let rb = arow[b];
+                assert!(eh::est_cov_get(&after, rl, rb) == 0.0 && eh::est_cov_get(&after, rb, rl) == 0.0, "new link uncorrelated with existing elements");
+            }
+            b += 1;
+        }
+    }
+    // the public queries read the same entries
+    let mut i = 0;
+    while i < NC {
+        if nm.clocks[i] == ClockKind::Internal && m.clocks[i] == ClockKind::Internal {
+            let off = after.clock_offset(cid(i));
+            let frq = after.clock_frequency(cid(i));
+            assert!(matches!(off, Ok(v) if v.value.to_bits() == p.sv[before[2 * i]].to_bits()), "clock_offset reports the unchanged offset");
+            assert!(matches!(frq, Ok(v) if v.value.to_bits() == p.sv[before[2 * i + 1]].to_bits()), "clock_frequency reports the unchanged frequency");
+        } else if nm.clocks[i] != ClockKind::Internal {
+            assert!(after.clock_offset(cid(i)).is_err(), "no estimate for a clock that is not an internal clock");
+        }
+        i += 1;
+    }
+
+    tally.accepted += 1;
+    if (kind == 1 || kind == 5) && rows >= 3 && before[if kind == 1 { 2 * w } else { 2 * NC + w }] + 2 < rows {
+        tally.shifted += 1; // something was removed in front of other elements
+    }
+}
+
+/// What the paths of one harness exercised (plain counters; every path is concrete).
+struct Tally {
+    accepted: u32,
+    rejected: u32,
+    shifted: u32,
+}
+
+const ALL_OPS: u16 = 0xfff;
+
+fn n_which(kind: u8) -> usize {
+    if kind >= 4 { NL } else { NC }
+}
+
+/// `mask` bit (2*kind + which) selects the operation.
+fn check_ops(e: &Est, m: &Model, p: &Payload, tally: &mut Tally, mask: u16) {
+    let mut kind = 0u8;
+    while kind < 6 {
+        let mut which = 0u8;
+        while (which as usize) < n_which(kind) {
+            if mask & (1 << (2 * kind + which)) != 0 {
+                check_op(e, m, kind, which, p, tally);
+            }
+            which += 1;
+        }
+        kind += 1;
+    }
+}
+
+/// Every sequence of at most `depth` further operations from (e, m), then every operation.
+/// All control flow is concrete (18 operations per level, failing ones are checked and pruned),
+/// so each path has concrete sizes; values are symbolic.
+fn enumerate(e: &Est, m: &Model, depth: usize, p: &Payload, tally: &mut Tally) {
+    check_layout(e, m);
+    check_ops(e, m, p, tally, ALL_OPS);
+    if depth == 0 {
+        return;
+    }
+    let mut kind = 0u8;
+    while kind < 6 {
+        let mut which = 0u8;
+        while (which as usize) < n_which(kind) {
+            let op = Op { kind, which, v0: 1.0, v1: 2.0, u0: 3.0, u1: 4.0 };
+            let r = est_apply(e.clone(), &op);
+            let mm = model_apply(m, &op);
+            assert!(r.is_ok() == mm.is_some(), "operation succeeds exactly when the identifier rules allow it");
+            if let (Ok(ne), Some(nm)) = (r, mm) {
+                enumerate(&ne, &nm, depth - 1, p, tally);
+            }
+            which += 1;
+        }
+        kind += 1;
+    }
+}
+
+fn empty_state() -> (Est, Model) {
+    (Est::empty(Timestamp::UNIX_EPOCH), Model { clocks: [ClockKind::Absent; NC], links: [false; NL] })
+}
+
+/// Concrete pre-state scripts with interleaved layouts; step = (kind, which), see `Op`.
+/// (Written as code, not as a table in static memory, so that symbolic execution sees constants.)
+fn script_step(script: usize, k: usize) -> Option<(u8, u8)> {
+    let steps: [(u8, u8); 6] = match script {
+        // c0 c1 L                     rows: c0(0,1) c1(2,3) L(4)
+        0 => [(0, 0), (0, 1), (4, 0), (9, 9), (9, 9), (9, 9)],
+        // c1 c0 L                     ids out of order: c1(0,1) c0(2,3) L(4)
+        1 => [(0, 1), (0, 0), (4, 0), (9, 9), (9, 9), (9, 9)],
+        // c0 x1 L                     link to an external clock: c0(0,1) L(2)
+        2 => [(0, 0), (2, 1), (4, 0), (9, 9), (9, 9), (9, 9)],
+        // x0 x1 L, x0 removed, c0     link row first: L(0) c0(1,2)
+        3 => [(2, 0), (2, 1), (4, 0), (3, 0), (0, 0), (9, 9)],
+        // c0 c1 L, c0 removed, c0     c1(0,1) L(2) c0(3,4)
+        4 => [(0, 0), (0, 1), (4, 0), (1, 0), (0, 0), (9, 9)],
+        // single clock
+        _ => [(0, 1), (9, 9), (9, 9), (9, 9), (9, 9), (9, 9)],
+    };
+    if k < 6 && steps[k].0 != 9 { Some(steps[k]) } else { None }
+}
+
+fn scripted(first: usize, last: usize, mask: u16) {
+    let p = any_payload();
+    let mut tally = Tally { accepted: 0, rejected: 0, shifted: 0 };
+    let mut si = first;
+    while si < last {
+        let (mut e, mut m) = empty_state();
+        let mut k = 0;
+        while let Some((kind, which)) = script_step(si, k) {
+            let op = Op { kind, which, v0: 1.0, v1: 2.0, u0: 3.0, u1: 4.0 };
+            let r = est_apply(e.clone(), &op);
+            let mm = model_apply(&m, &op);
+            assert!(r.is_ok() && mm.is_some(), "script step succeeds");
+            if let (Ok(ne), Some(nm)) = (r, mm) {
+                e = ne;
+                m = nm;
+            }
+            k += 1;
+        }
+        check_layout(&e, &m);
+        check_ops(&e, &m, &p, &mut tally, mask);
+        si += 1;
+    }
+    kani::cover!(tally.accepted >= 1, "operations were accepted and the survivors compared");
+    kani::cover!(tally.rejected >= 1, "operations were rejected");
+    kani::cover!(tally.shifted >= 1 || first == 5, "an element in front of others was removed (rows shift)");
+}
+
+macro_rules! script_harness {
+    ($name:ident, $i:expr) => {
+        /// Pre-state: one scripted layout, then each of the 18 operations.
+        #[kani::proof]
+        #[kani::unwind(27)]
+        fn $name() {
+            scripted($i, $i + 1, ALL_OPS);
+        }
+    };
+}
+/// Quick-tier slices: layout c0 c1 L with {remove c0 (everything shifts), remove L, duplicate add c0},
+/// and layout c1 L c0 with {remove L (c0 shifts), duplicate add_external c0, remove c1 (L and c0 shift)}.
+#[kani::proof]
+#[kani::unwind(27)]
+fn c42_ops() {
+    scripted(0, 1, (1 << 2) | (1 << 10) | (1 << 0));
+}
+#[kani::proof]
+#[kani::unwind(27)]
+fn c42_ops_b() {
+    scripted(4, 5, (1 << 10) | (1 << 4) | (1 << 3));
+}
+script_harness!(c42_ops_s0, 0);
+script_harness!(c42_ops_s1, 1);
+script_harness!(c42_ops_s2, 2);
+script_harness!(c42_ops_s3, 3);
+script_harness!(c42_ops_s4, 4);
+script_harness!(c42_ops_s5, 5);
+
+/// Pre-states: every sequence of at most 1 operation from the empty estimator, then each of the
+/// 10 operations (exhaustive over operation sequences of length <= 2).
+#[kani::proof]
+#[kani::unwind(27)]
+fn c42_ops_seq2() {
+    let p = any_payload();
+    let (e, m) = empty_state();
+    let mut tally = Tally { accepted: 0, rejected: 0, shifted: 0 };
+    enumerate(&e, &m, 1, &p, &mut tally);
+    kani::cover!(tally.accepted >= 10 && tally.rejected >= 10, "accepted and rejected operations on every one-step pre-state");
+}
+
+// ------------------------------------------------------------------ time never moves backwards
+#[kani::proof]
+#[kani::unwind(27)]
+fn c42_time() {
+    let t0: u128 = kani::any();
+    let t1: u128 = kani::any();
+    // sane range: both instants in the first half of the (wrapping) timestamp space
+    kani::assume(t0 < (1u128 << 126) && t1 < (1u128 << 126));
+    kani::assume(t1 <= t0);
+    let sv: [f64; 3] = kani::any();
+    let cv: [[f64; 3]; 3] = kani::any();
+    let mut e: Est = Est::empty(th::ts_from_raw::<TAI>(t0))
+        .add_clock(cid(0), (1.0, 1.0).into(), (1.0, 1.0).into(), 1e-8)
+        .unwrap()
+        .add_external_clock(cid(1))
+        .unwrap()
+        .add_link(lid(0), (1.0, 1.0).into(), 0.5)
+        .unwrap();
+    let mut r = 0;
+    while r < 3 {
+        eh::est_state_set(&mut e, r, sv[r]);
+        let mut c = 0;
+        while c < 3 {
+            eh::est_cov_set(&mut e, r, c, cv[r][c]);
+            c += 1;
+        }
+        r += 1;
+    }
+    let res = e.clone().progress_time(th::ts_from_raw::<TAI>(t1));
+    if t1 < t0 {
+        assert!(
+            matches!(res, Err(AlgoError::NonMonotonicTimeProgression { from, to }) if th::ts_raw(from) == t0 && th::ts_raw(to) == t1),
+            "progressing to an earlier time is an error"
+        );
+        kani::cover!(t0 - t1 == 1, "one unit backwards rejected");
+    } else {
+        let Ok(after) = res else {
+            assert!(false, "progressing to the current time succeeds");
+            return;
+        };
+        assert!(th::ts_raw(eh::est_time(&after)) == t0, "time unchanged");
+        let mut r = 0;
+        while r < 3 {
+            assert!(eh::est_state_get(&after, r).to_bits() == sv[r].to_bits(), "zero time step leaves the state unchanged");
+            let mut c = 0;
+            while c < 3 {
+                assert!(eh::est_cov_get(&after, r, c).to_bits() == cv[r][c].to_bits(), "zero time step leaves the covariance unchanged");
+                c += 1;
+            }
+            r += 1;
+        }
+        kani::cover!(true, "zero step");
+    }
+}
+
+// ------------------------------------------------------------------ controller: failing operations change nothing
+#[derive(Clone)]
+pub struct FixedClock;
+impl Clock for FixedClock {
+    fn now(&self) -> Result<Timestamp<TAI>, ClockError> {
+        Ok(Timestamp::UNIX_EPOCH)
+    }
+    fn set_frequency(&self, _freq: f64) -> Result<Timestamp<TAI>, ClockError> {
+        Ok(Timestamp::UNIX_EPOCH)
+    }
+    fn get_frequency(&self) -> Result<f64, ClockError> {
+        Ok(0.0)
+    }
+    fn max_frequency(&self) -> Result<f64, ClockError> {
+        Ok(1e-4)
+    }
+    fn step_clock(&self, _offset: Duration) -> Result<Timestamp<TAI>, ClockError> {
+        Ok(Timestamp::UNIX_EPOCH)
+    }
+    fn error_estimate_update(&self, _e: Duration, _m: Duration) -> Result<(), ClockError> {
+        Ok(())
+    }
+    fn leap_update(&self, _l: LeapStatus) -> Result<(), ClockError> {
+        Ok(())
+    }
+    fn synchronization_update(&self, _s: bool) -> Result<(), ClockError> {
+        Ok(())
+    }
+}
+
+pub type Ctl = KalmanController<NoAllocKalmanStorage<FixedClock, 16>, FixedClock>;
+impl AsRef<Ctl> for CtlRef<'_> {
+    fn as_ref(&self) -> &Ctl {
+        self.0
+    }
+}
+pub struct CtlRef<'a>(pub &'a Ctl);
+
+pub fn filter_config() -> fh::LinkFilterConfigT {
+    fh::LinkFilterConfigT {
+        select_offset_uncertainty_window: 1.0,
+        select_link_uncertainty_window: 1.0,
+        select_delay_uncertainty_window: 1.0,
+        select_max_window_size: 1.0,
+        minimum_agreeing_sources: 1,
+    }
+}
+
+/// Controller with system clock S, second steered clock A and external clock X; an untracked link
+/// S-X (links live only in the filter until they become active). Every estimator entry is symbolic.
+/// A failing call (unknown / duplicate / wrong-kind identifier) must leave all entries, the
+/// dimension, and the clock and link lists unchanged; a succeeding call must leave the other
+/// clocks' entries unchanged.
+#[kani::proof]
+#[kani::unwind(18)]
+fn c42_ctl() {
+    let sv: [f64; 4] = kani::any();
+    let cv: [[f64; 4]; 4] = kani::any();
+    let opk: u8 = kani::any();
+    kani::assume(opk < 6);
+    let raw_a: usize = kani::any();
+    let raw_b: usize = kani::any();
+
+    let (ctl, sys) = Ctl::new(FixedClock, 1e-8, filter_config()).unwrap();
+    let a = ctl.add_clock(FixedClock, 1e-8).unwrap();
+    let x = ctl.add_external_clock().unwrap();
+    let link = Ctl::create_untracked_link(CtlRef(&ctl), sys, x).unwrap();
+    ch::with_filter(&ctl, |f| {
+        let e = fh::filter_estimator_mut(f);
+        let mut r = 0;
+        while r < 4 {
+            eh::est_state_set(e, r, sv[r]);
+            let mut c = 0;
+            while c < 4 {
+                eh::est_cov_set(e, r, c, cv[r][c]);
+                c += 1;
+            }
+            r += 1;
+        }
+    });
+    let ida = ih::clock_id_from_raw(raw_a);
+    let idb = ih::clock_id_from_raw(raw_b);
+    let known = |id: ClockId| id == sys || id == a || id == x;
+
+    // expected outcome from the documented rules
+    let (ok, expect_ok): (bool, bool) = match opk {
+        0 => (ctl.remove_clock(ida).is_ok(), ida == a), // system clock, external, in-use and unknown ids fail
+        1 => (ctl.remove_external_clock(ida).is_ok(), ida == x),
+        2 => {
+            let r = Ctl::create_untracked_link(CtlRef(&ctl), ida, idb);
+            let ok = r.is_ok();
+            core::mem::forget(r); // keep the link (dropping removes it again)
+            (ok, known(ida) && known(idb) && ida != idb && !(ida == x && idb == x))
+        }
+        3 => {
+            let r = Ctl::create_tracked_link(CtlRef(&ctl), ida, idb, 0.5);
+            let ok = r.is_ok();
+            core::mem::forget(r);
+            (ok, known(ida) && known(idb) && ida != idb && !(ida == x && idb == x))
+        }
+        4 => (ctl.clock_offset(ida).is_ok(), ida == sys || ida == a),
+        _ => (ctl.add_external_clock().is_ok(), true),
+    };
+    assert!(ok == expect_ok, "controller operation succeeds exactly when the identifier rules allow it");
+
+    let removed_a = opk == 0 && ok;
+    ch::with_filter(&ctl, |f| {
+        if !ok {
+            assert!(fh::filter_link_count(f) == 1, "failed operation: link list unchanged");
+        }
+        let e = fh::filter_estimator(f);
+        if !ok {
+            assert!(eh::est_counts(e) == (2, 1, 0), "failed operation: clock lists unchanged");
+        }
+        assert!(eh::est_rows(e) == if removed_a { 2 } else { 4 }, "dimension");
+        // system clock occupies rows 0,1; clock A rows 2,3 (construction order)
+        assert!(eh::est_clock_row(e, sys) == Some(0), "system clock row");
+        let mut r = 0;
+        while r < 4 {
+            if r < 2 || !removed_a {
+                assert!(eh::est_state_get(e, r).to_bits() == sv[r].to_bits(), "entries of other clocks unchanged");
+                let mut c = 0;
+                while c < 4 {
+                    if c < 2 || !removed_a {
+                        assert!(eh::est_cov_get(e, r, c).to_bits() == cv[r][c].to_bits(), "covariance of other clocks unchanged");
+                    }
+                    c += 1;
+                }
+            }
+            r += 1;
+        }
+    });
+    assert!(ch::steered_clock_count(&ctl) == if removed_a { 1 } else { 2 }, "steered clock list follows the filter");
+    kani::cover!(opk == 0 && !ok && ida == sys, "removing the system clock fails");
+    kani::cover!(opk == 0 && !ok && ida == x, "remove_clock on an external id fails");
+    kani::cover!(opk == 0 && ok, "removing clock A succeeds");
+    kani::cover!(opk == 1 && !ok, "remove_external_clock on a non-external id fails");
+    kani::cover!(opk == 2 && !ok && ida == idb, "link between a clock and itself fails");
+    kani::cover!(opk == 3 && ok, "tracked link created");
+    core::mem::forget(link);
+}
+
+#[kani::proof]
+#[kani::unwind(27)]
+fn probe_vec() {
+    let e: Est = Est::empty(Timestamp::UNIX_EPOCH);
+    let e = e.add_clock(cid(0), (1.0, 1.0).into(), (1.0, 1.0).into(), 1e-8).unwrap();
+    assert!(e.is_internal_clock(cid(0)));
+    let e2 = e.clone().add_clock(cid(1), (1.0, 1.0).into(), (1.0, 1.0).into(), 1e-8).unwrap();
+    assert!(e2.is_internal_clock(cid(1)));
+    let e3 = e2.clone().add_link(lid(0), (1.0, 1.0).into(), 0.5).unwrap();
+    assert!(eh::est_rows(&e3) == 5);
+    let e4 = e3.clone().remove_clock(cid(0)).unwrap();
+    assert!(eh::est_rows(&e4) == 3);
+}
